@@ -421,6 +421,10 @@ class _Reader(object):
     def read(self, *a):
         return self.real.read(*a)
 
+    def __getattr__(self, name):
+        # seek / tell / readline / ...: whatever else the code under test does with its file goes to the real one
+        return getattr(self.real, name)
+
 
 class _Writer(object):
     def __init__(self, fs, real, path):
@@ -448,6 +452,9 @@ class _Writer(object):
             fs.write_fault_left -= 1
         fs.writes += 1
         return self.real.write(s)
+
+    def __getattr__(self, name):
+        return getattr(self.real, name)
 
 
 class SimFS(object):
